@@ -117,3 +117,49 @@ fn __verif_n_c19_class_invariants() {
         Some((input, why)) => println!("VERIF-N id=N/n_c19_class/class_invariants status=fail key=\"{}\" input=\"{}\" detail=\"{}: {}\" bound=\"{bound}\"", why.replace('"', "'"), input.replace('"', "'"), input.replace('"', "'"), why.replace('"', "'")),
     }
 }
+
+/// Last conjunct of C19: "the class hashes are stable under JSON round-trips" (and the compiled
+/// class does not depend on whether the published class went through JSON). For every checked-in
+/// contract class k: parse(print(k)) == k, compile(parse(print(k))) == compile(k); for the compiled
+/// class c, with and without pythonic hints: parse(print(c)) == c (compact and pretty JSON), both
+/// class hashes of parse(print(c)) equal those of c, and the hashes do not depend on the hints.
+#[test]
+fn __verif_n_c19_class_json_hash() {
+    std::panic::set_hook(Box::new(|_| {}));
+    let mut cases = 0u64;
+    let mut fail: Option<(String, String)> = None;
+    let cls = classes();
+    'o: for (name, class) in &cls {
+        let r = catch_unwind(AssertUnwindSafe(|| -> Option<String> {
+            let printed = serde_json::to_string(class).ok()?;
+            let back: ContractClass = match serde_json::from_str(&printed) { Ok(b) => b, Err(e) => return Some(format!("printed contract class does not parse back: {e}")) };
+            if &back != class { return Some("contract class changed by a JSON round trip".into()); }
+            let base = compile(class.clone()).ok()?;
+            match compile(back) { Ok(c) if c == base => {}, _ => return Some("the class compiled from the JSON round-tripped contract class differs".into()) }
+            let extracted = class.extract_sierra_program(false).ok()?;
+            let with_hints = CasmContractClass::from_contract_class(class.clone(), extracted, true, usize::MAX).ok()?;
+            if with_hints.bytecode != base.bytecode || with_hints.entry_points_by_type != base.entry_points_by_type || with_hints.hints != base.hints { return Some("pythonic hints change the compiled code".into()); }
+            let (h, lh) = (base.compiled_class_hash(), base.legacy_compiled_class_hash());
+            if with_hints.compiled_class_hash() != h || with_hints.legacy_compiled_class_hash() != lh { return Some("the class hash depends on the pythonic hints".into()); }
+            for c in [&base, &with_hints] {
+                for pretty in [false, true] {
+                    let s = if pretty { serde_json::to_string_pretty(c) } else { serde_json::to_string(c) }.ok()?;
+                    let b: CasmContractClass = match serde_json::from_str(&s) { Ok(b) => b, Err(e) => return Some(format!("printed compiled class does not parse back: {e}")) };
+                    if &b != c { return Some("compiled class changed by a JSON round trip".into()); }
+                    if b.compiled_class_hash() != h || b.legacy_compiled_class_hash() != lh { return Some("class hash changed by a JSON round trip".into()); }
+                    // printing again gives the same text (stable artifact)
+                    let s2 = if pretty { serde_json::to_string_pretty(&b) } else { serde_json::to_string(&b) }.ok()?;
+                    if s2 != s { return Some("printing the parsed compiled class gives a different JSON text".into()); }
+                }
+            }
+            None
+        }));
+        cases += 1;
+        match r { Ok(None) => {}, Ok(Some(w)) => { fail = Some((name.clone(), w)); break 'o; }, Err(_) => { fail = Some((name.clone(), "panic".into())); break 'o; } }
+    }
+    let bound = format!("{} checked-in contract classes x {{compact, pretty}} JSON x {{with, without}} pythonic hints", cls.len());
+    match fail {
+        None => println!("VERIF-N id=N/n_c19_class/json_hash_stable status=ok cases={} distinct={cases} bound=\"{bound}\"", cases * 4),
+        Some((input, why)) => println!("VERIF-N id=N/n_c19_class/json_hash_stable status=fail key=\"{}\" input=\"{}\" detail=\"{}: {}\" bound=\"{bound}\"", why.replace('"', "'"), input.replace('"', "'"), input.replace('"', "'"), why.replace('"', "'")),
+    }
+}
